@@ -5,7 +5,7 @@ CONSTANTS
   Kind = "contacts"
   Atoms <- AtomsList
   Prefix <- PfxNone
-  MaxLen = 3
+  MaxLen = 4
   Cfgs <- CfgsCont
   Junk = 34
   EmitOn = TRUE
